@@ -1,7 +1,7 @@
 (* C06 — Compile and evaluation are total: result or error, never panic or hang.
-   PARTIAL: the evaluation half (Eval on every compiled tree) is proved; the text half (lexer, parsers) and
-   TryEval/Dump totality are tied by the correspondence only — see DESIGN.md. *)
-Require Import Base Opcode Tables Ops Tree Opt Flat Run CompFacts EvalDefs EvalTop Limits.
+   PARTIAL: the evaluation half (Eval, TryEval and Dump on every compiled tree) is proved; the text half (lexer,
+   parsers on arbitrary strings) is explored under recover() — see DESIGN.md. *)
+Require Import Base Opcode Tables Ops Tree Opt Flat Run CompFacts EvalDefs EvalTop TryCorrect DumpStruct Print Limits.
 Open Scope Z_scope.
 
 (* the model of Expr.Eval has an explicit MPanic outcome at every Go expression that can panic (index out of
@@ -22,11 +22,25 @@ Proof.
   intros. rewrite run_compile_correct. unfold sem_obs. destruct (snd (sem fetch custom t)); cbn [snd]; split; discriminate.
 Qed.
 
+(* the same for TryEval: the model of Expr.TryEval (explicit panic outcomes at every index expression, explicit fuel
+   for the climbing loop) ends in a value or an error on every compiled tree, for every availability predicate *)
+Theorem C06_tryeval_no_panic : forall fetch custom cached t site,
+  snd (tryeval fetch custom cached (compile t)) <> MPanic site /\ snd (tryeval fetch custom cached (compile t)) <> MFuel.
+Proof.
+  intros. rewrite tryrun_compile_correct. unfold sem_obs. destruct (snd (trysem fetch custom cached t)); cbn [snd]; split; discriminate.
+Qed.
+
+(* Dump of a compiled program always produces a text (the model returns None where Go would index out of range) *)
+Theorem C06_dump_total : forall t, dump (compile t) <> None.
+Proof. intros t. rewrite dump_compile. discriminate. Qed.
+
 (* the capacity check is total and its decision is one of the stated three *)
 Theorem C06_check_total : forall t, (exists n, check t = inr n) \/ (exists e, check t = inl e).
 Proof. intros t. destruct (check t); eauto. Qed.
 
-(* the full statement for the text layer, not yet proved (kept visible) *)
-Definition C06_text_statement : Prop := True.   (* see DESIGN.md section 5 C06: compile_text never panics — correspondence only *)
+(* The text half — Compile never panics on ANY string — has no theorem: the models of lexer and parsers are total
+   functions by construction, which says nothing about the Go functions; that half is explored under recover()
+   on every run (DESIGN.md section 5, C06). *)
 
 Print Assumptions C06_eval_no_panic.
+Print Assumptions C06_tryeval_no_panic.
